@@ -742,6 +742,7 @@ func main() {
 			"iterator clones after a history (iterhist): containers = sparse vectors n<=4 (Float64/Real64: n<=5; thorough: n<=5, Float64/Real64/Int16 n<=6) and dense vectors n<=3 (thorough 4) with EVERY zero pattern, sparse ones filled in ascending, descending and (>=5 entries) middle-out order (right-heavy / left-heavy / balanced index trees), slices; matrices 2x2 (sparse also 1x3; sparse Float64/Real64 also 2x3 with 4 or 6 entries; thorough: all of 1x2..2x3, every pattern), owning, and T and Slice views (quick: <=4 cells, three zero patterns; thorough: every shape, every pattern up to 4 cells, three patterns of 2x3); all 9 element types; x iterator kind {Iterator, ConstIterator, IteratorFrom, JointIterator, ConstJointIterator (second operand dense and sparse), MagicIterator} x every position K the iterator can be advanced to x every single mutation {write a value to position p (absent: new entry), write zero to p, write zero to p and purge by a full const-iterator walk, Swap(p,q), SwapRows, SwapColumns; all p,q} of the container / the object owning its storage / the second operand (thorough: every ordered pair on owning containers with <=4 cells, Float64/Real64) x every clone method of the kind, the mutation placed between advancing and cloning (thorough: also between cloning and walking); reference = the never-cloned source iterator after the same history in an identically built instance; " +
 			"the AVL tree iterator itself: every distinct tree (shape, balance, keys) over <=5 keys of {0..5} (thorough <=6 of {0..6}) x Iterator / IteratorFrom(every key) / SafeIterator x every position x every single Insert(absent)/Delete(present) and every ordered pair of them (trees <=4 keys; thorough: all) x mutation before / after Clone(); " +
 			"operations with a FUNCTION argument in the read-only-operand part: Jacobian(f,x) and Hessian(f,x) with receivers of all 9 element types, both storage classes, owning and transposed, n=1..3, x f in {builds a new result, returns (an element of) its argument, returns an object the caller holds (also snapshotted)} x operands x of {Real64, Real32} x {dense, sparse} whose derivative state is: order 0 (full / alternating pattern), order 1 and order 2 content with non-trivial entries over 1, 2 and 3 variables, Variables(1) / Variables(2) already called by the caller, zero cells carrying derivatives only, slices of a longer vector with derivative-carrying neighbours; MapSet whose callback returns a scalar the caller holds; Reduce over every operand configuration; optimizers with an objective callback (rprop, bfgs, newton x 3, gradientDescent, adam) with Real64 start vectors of order 0, order 1 over 3 variables, order 2 over 1 variable and order 2 over dim variables; snapshots compare value, order, N, every derivative and every Hessian entry; " +
+			"parametrised objects (dist): 13 scalar distribution families with all-scalar constructors x {Float64, Real64} x 3 parameter points x {owned vector, slice of a longer vector}: constructor scalars / SetParameters vector overwritten by the caller afterwards, earlier argument vector unchanged by later calls, CloneScalarPdf independence under SetParameters, LogPdf evaluation point unchanged - differential against an object fed private copies; " +
 			"the caller's option slice (optslice): every entry point under algorithm/ taking `args ...interface{}` (27: matrixInverse, determinant, cholesky, qrAlgorithm, svd, eigensystem, hessenbergReduction, householder{Bi,Tri}diagonalization, backSubstitution, gramSchmidt, gaussJordan, msqrt, msqrtInv, blahut.Run/RunNaive, rprop.Run/RunGradient, bfgs, newton.RunRoot/RunCrit/RunMin, gradientDescent, adam.Run/RunGradient, saga, lineSearch) called as Run(x, opts...) with a slice the caller keeps x every option set of the algorithm-input and two-call parts extended by the *InSitu object and by the options forwarded to the nested algorithm (gaussJordan.Submatrix through matrixInverse, qrAlgorithm.Epsilon through eigensystem) x every rotation of the option list and of its reversal (all permutations up to 3 options) x spare capacity 0 / 4 (thorough: 0 / 1 / 4; filled with sentinels) x {Float64, Real64} x every input; the slice is compared up to its capacity (dynamic type, scalar content, identity of pointers / functions / backing arrays, scalar fields behind non-InSitu pointers) after each of two calls, and the second call with the same slice on an identically built input must end like the first and return the same results; " +
 			"a case is non-trivial if the mutation changed its target (indep), the call returned (readonly/selfread/algo/twocall), the slice held at least one option and both calls returned (optslice), at least one derived observation was comparable and all agreed (derived), the iterator had elements left (iter), the mutation changed the container and the source iterator still had elements left afterwards (iterhist), or O2 was fired inside O1 and changed the other side (interleave)",
 		Assume: []string{
